@@ -378,7 +378,7 @@ static void case_statistics(Rng& rng, uint64_t index)
 	std::sort(srt.begin(), srt.end());
 	double medref = (n % 2) ? srt[n / 2] : (srt[n / 2 - 1] + srt[n / 2]) / 2;
 	double med	  = Median(work);
-	require("median-definition", same_bits(med, medref) || med == medref, [&] { return J().d("Median", med).d("reference", medref); });
+	require("median-definition", near_ulps(med, medref, 2) || (n % 2 == 0 && std::fabs(med - medref) <= 2 * EPS * std::max(std::fabs(srt[n / 2 - 1]), std::fabs(srt[n / 2]))), [&] { return J().d("Median", med).d("reference", medref); });
 	std::vector<double> work_sorted = work;
 	std::sort(work_sorted.begin(), work_sorted.end());
 	require("median-only-permutes-its-argument", work_sorted == srt, [&] { return J().i("n", n); });
